@@ -125,6 +125,24 @@ theorem solve_backward_scalar {n c : Nat} (A Ainv dA : Matrix (Fin n) (Fin n) α
   rw [solve_backward A Ainv dA X dX B dB hinv h0 h1, hb]
   simp only [Matrix.transpose_mul, Matrix.transpose_transpose, Matrix.mul_sub, Matrix.trace_sub, Matrix.mul_assoc]
 
+/-- **Broadcast parameters are summed, arbitrary pattern** (`broadcast_params_summed`): if batch member `b` reads entry
+`π b` of a parameter (any broadcast pattern — scalar, missing leading dims, leading or NON-leading size-1 dims) and `g b` is
+the member's gradient, then the summed-back gradient `bcastSum π g` pairs with a perturbation `δ` of the small parameter
+exactly as the members' gradients pair with the perturbation each member sees. -/
+theorem broadcast_params_summed {B K : Nat} (π : Fin B → Fin K) (g : Fin B → α) (δ : Fin K → α) :
+    ∑ k, bcastSum π g k * δ k = ∑ b, g b * δ (π b) :=
+  bcastSum_pair π g δ
+
+/-- **ConstantMul with a broadcast constant**: for a batch of members `b` with base parameters `θ b` and constant entry
+`c (π b)`, the constant's gradient summed back along the pattern `π` pairs with `δc` to the total ε-part contributed by the
+constant: `Σ_b Σ_c u_cᵀ (⟦base_b⟧ · δc(π b)) v_c` — for every base operator tree and every pattern. -/
+theorem constMul_broadcast_constant {n m B K : Nat} (o : Op n m) (π : Fin B → Fin K) (θ : Fin B → Param α o) (c δc : Fin K → α)
+    {d : Nat} (U : Fin B → Mat α n d) (V : Fin B → Mat α m d) :
+    ∑ k, bcastSum π (fun b => (bilinDeriv (.constMul o) (θ b, c (π b)) (U b) (V b)).2) k * δc k
+      = ∑ b, bilS (fun i j => denote o (θ b) i j * δc (π b)) (U b) (V b) := by
+  rw [bcastSum_pair]
+  exact Finset.sum_congr rfl fun b _ => constMul_const_grad o (θ b, c (π b)) (U b) (V b) (δc (π b))
+
 /-- **inv_quad backward**: `q = Σ_c b_cᵀ A⁻¹ b_c = tr(Xᵀ B)` with `A X = B`, `A` symmetric: its first-order change is
 `2·tr(Xᵀ dB) − Σ_c x_cᵀ dA x_c` — the rhs receives `2·solves` and the parameters `_bilinear_derivative(−solves, solves)`,
 as `InvQuad.backward` computes (before the upstream factor). -/
